@@ -124,6 +124,14 @@ def checkFile (b : AidlFile) (w : FileWalk) : Result := Id.run do
   -- visit list (detailed level)
   r := { r with corr15 := r.corr15 && (modelAll.map symView == w.symbols.map implView),
                 spec15 := r.spec15 && (specAll.map symView == w.symbols.map implView) }
+  -- "in source order": the constructs are visited where they stand in the text — the start offsets of the
+  -- visited symbols never decrease, whatever tree the walker is given (a validated tree whose members were
+  -- reordered is NOT walked in source order). An array is visited AFTER its element type and everything inside it,
+  -- as the statement says, so array symbols (and, harmlessly, a user type called `Array`) are left out of the
+  -- comparison; the rest is a pre-order in source order.
+  let starts := (w.symbols.filter (fun s => !(s.tag == "type" && s.name == some "Array"))).map (fun s => s.fr.start.off)
+  let srcOrder := (starts.zip starts.tail).all fun (a, b) => a ≤ b
+  r := { r with spec15 := r.spec15 && srcOrder }
   -- levels
   for (lname, idxs) in w.levels do
     let f := filterOf lname
